@@ -76,6 +76,7 @@ type Enc struct {
 	obls     []*Obl
 	fresh    int
 	epochCtr int
+	nilLit   string
 	epochs   map[int]epochInfo
 	frameCtr int
 
